@@ -88,6 +88,11 @@ pub fn core_spaces(tier: &str, seed: i64, heavy: bool) -> Vec<Space> {
         v.push(Space::bfs("ladder", ROOT_LADDER, 4));
         v.push(Space::bfs("ladder-open", ROOT_LADDER_OPEN, 3));
         v.push(Space::closure("KRk", ROOT_KRK));
+        // long histories: the state stack close to the 400-ply interface limit
+        v.push(Space::line("startpos-any", ROOT_START, 398, 2));
+        v.push(Space::line("startpos-shuffle", ROOT_START, 398, 1));
+        v.push(Space::line("kiwipete-shuffle", ROOT_KIWI, 398, 3));
+        v.push(Space::line("rights-any", ROOT_RIGHTS, 398, 4));
     } else {
         v.push(Space::all(Universe::U2));
         v.push(Space::all(Universe::U3));
@@ -127,6 +132,10 @@ pub fn core_spaces(tier: &str, seed: i64, heavy: bool) -> Vec<Space> {
         v.push(Space::closure("KRk", ROOT_KRK));
         v.push(Space::closure("KQk", ROOT_KQK));
         v.push(Space::closure("KPk", ROOT_KPK));
+        for rule in 1..=24u32 {
+            let (n, r) = match rule % 4 { 0 => ("rights", ROOT_RIGHTS), 1 => ("startpos", ROOT_START), 2 => ("perft5", ROOT_P5), _ => ("kiwipete", ROOT_KIWI) };
+            v.push(Space::line(&format!("{}-rule{}", n, rule), r, 398, rule));
+        }
     }
     v
 }
